@@ -177,7 +177,7 @@ def run(repo, tier):
     a1_collect(repo, res, modules={'photutils.centroids.core', 'photutils.centroids.gaussian'})
     from .common import run_nonfinite
     run_nonfinite(repo, res, MODS)
-    res.floor('loops-examined', 3)
+    res.floor('loops-examined', 2)
     res.floor('LP4', 5)
     res.floor('SPEC', 8)
     res.floor('T-AXIS', 10)
